@@ -1270,12 +1270,16 @@ class Case(object):
     """One directory tree: <WORK>/<n>/in/... (inputs), <WORK>/<n>/out (explicit output), <WORK>/<n>/cwd."""
     counter = itertools.count()
 
-    def __init__(self, layout, in_name='in', name_style='plain', shared=False, context=None):
+    def __init__(self, layout, in_name='in', name_style='plain', shared=False, context=None, empty_dirs=(),
+                 out_rel='out', out_dirs=(), shape=None):
         """layout: list of (relative sub directory ('' = top), kind[, (form, repertoire)]) in creation order;
         without the third entry the file is plain ASCII content stored as UTF-8 with a UTF-8 declaration.
         shared=True: the files belong to the shared family (same names, ids and structure in every file; file
         names f00, f01, ... by position in the layout, whatever the kind). context: label of what makes the
-        batch / usage history special (part of the failure class of wrong outputs)."""
+        batch / usage history special (part of the failure class of wrong outputs). empty_dirs: directories below
+        the input directory that hold nothing. out_rel: the explicit output directory relative to the case root (it may
+        lie inside the input directory). out_dirs: directories the explicit output directory holds already. shape: label
+        of what makes the directory tree special (the failure class of everything that goes wrong with this tree)."""
         self.layout = [(it[0], it[1], it[2] if len(it) > 2 else None) for it in layout]
         self.shared = shared
         self.context = context
@@ -1287,10 +1291,15 @@ class Case(object):
         shutil.rmtree(self.root, ignore_errors=True)
         self.in_name = in_name
         self.indir = os.path.join(self.root, in_name)
-        self.outdir = os.path.join(self.root, 'out')
+        self.out_rel = out_rel
+        self.outdir = os.path.join(self.root, out_rel)
         self.cwd = os.path.join(self.root, 'cwd')
-        for d in (self.indir, self.outdir, self.cwd):
-            os.makedirs(d)
+        self.shape = shape
+        self.empty_dirs = list(empty_dirs)
+        self.out_dirs = list(out_dirs)
+        for d in [self.indir, self.outdir, self.cwd] + [os.path.join(self.indir, e) for e in empty_dirs] + \
+                [os.path.join(self.outdir, e) for e in out_dirs]:
+            os.makedirs(d, exist_ok=True)
         self.files = []          # dicts: base, kind, sub, rel (to root), content
         for i, (sub, kind, var) in enumerate(self.layout):
             ext = ext_of(kind)
@@ -1328,8 +1337,13 @@ class Case(object):
         self.form_label = None if not labels else (labels[0] if len(labels) == 1 else 'several-stored-forms')
 
     def describe(self):
-        return {'layout': [[s, k] + ([list(v)] if v else []) for s, k, v in self.layout],
-                'input_dir_name': self.in_name, 'file_names': [os.path.basename(f['path']) for f in self.files][:8]}
+        out = {'layout': [[s, k] + ([list(v)] if v else []) for s, k, v in self.layout],
+               'input_dir_name': self.in_name, 'file_names': [os.path.basename(f['path']) for f in self.files][:8]}
+        if self.empty_dirs:
+            out['empty_dirs'] = self.empty_dirs
+        if self.out_rel != 'out' or self.out_dirs:
+            out.update(output_dir=self.out_rel, output_dir_holds=self.out_dirs)
+        return out
 
     def cleanup(self):
         shutil.rmtree(self.root, ignore_errors=True)
@@ -1482,11 +1496,12 @@ def run_cli(ck, case, tool, recursive, explicit):
     fn = odml_convert.main if tool == 'odmlconvert' else odml_to_rdf.main
     argv = (['-r'] if recursive else []) + (['-o', case.outdir] if explicit else []) + [case.indir]
     wit = dict(case.describe(), tool=tool, recursive=recursive, explicit_output=explicit)
-    ck.override = None
+    ck.override = _shape_feature(case, tool, recursive, explicit)
     status, val, text = run_tool(fn, argv, case.cwd)
-    out_root = 'out' if explicit else 'cwd'
-    after_top = sorted(os.listdir(os.path.join(case.root, out_root)))
-    new_top = [os.path.join(out_root, d) for d in after_top]       # both start empty
+    out_root = case.out_rel if explicit else 'cwd'
+    after_top = sorted(d for d in os.listdir(os.path.join(case.root, out_root))
+                       if os.path.join(out_root, d) not in case.before)    # what the directory held before is not new
+    new_top = [os.path.join(out_root, d) for d in after_top]
     new_files = frame_check(ck, case, tool, new_top, wit)
     if len(new_top) != 1 or not os.path.isdir(os.path.join(case.root, new_top[0])):
         ck.fail('writes-only-to-output', tool + ':output-directory', wit,
@@ -1544,13 +1559,24 @@ def _position_feature(case, f, in_scope):
     return 'with-bad-files' if bad else 'only-good-files'
 
 
-def run_fc(ck, case, target, recursive, explicit, via_args, expect_ok):
-    """One run of the FormatConverter over the case's input directory."""
+def _shape_feature(case, tool, recursive, explicit):
+    """Failure class of a case whose directory tree (not its files) is what makes it special."""
+    if not case.shape:
+        return None
+    out = ''
+    if explicit and (case.out_rel != 'out' or case.out_dirs):
+        out = ':output-directory-inside-input' if case.out_rel != 'out' else ':output-directory-holds-directories'
+    return '%s:%s:%s%s' % (tool, 'recursive' if recursive else 'non-recursive', case.shape, out)
+
+
+def run_fc(ck, case, target, recursive, explicit, via_args, expect_ok, ignore_below=None):
+    """One run of the FormatConverter over the case's input directory. ignore_below: new files below this
+    directory (relative to the case root) are not examined."""
     tool = 'formatconverter'
     out = case.outdir if explicit else None
     wit = dict(case.describe(), tool=tool, target=target, recursive=recursive, explicit_output=explicit,
                via='convert(args)' if via_args else 'convert_dir')
-    ck.override = None
+    ck.override = _shape_feature(case, tool, recursive, explicit)
     if case.in_name != 'in' and recursive:
         ck.override = 'formatconverter:recursive:input-directory-name-with-regex-metacharacter'
     if via_args:
@@ -1559,8 +1585,10 @@ def run_fc(ck, case, target, recursive, explicit, via_args, expect_ok):
     else:
         status, val, text = run_tool(lambda _: FormatConverter.convert_dir(case.indir, out, recursive, target),
                                      None, case.cwd)
-    allowed = ['out'] if explicit else ['%s_%s' % (case.in_name, target)]
+    allowed = [case.out_rel] if explicit else ['%s_%s' % (case.in_name, target)]
     new_files = frame_check(ck, case, tool, allowed, wit)
+    if ignore_below:
+        new_files = [rel for rel in new_files if not rel.startswith(ignore_below + os.sep)]
     in_scope = [f for f in case.files if recursive or f['sub'] == '']
     if status != 'ret':
         if expect_ok:
@@ -2270,6 +2298,205 @@ def run_hostile(tier, seed):
                         run_cli(ck, case, tool, recursive, explicit)
                 finally:
                     case.cleanup()
+    finally:
+        shutil.rmtree(WORK, ignore_errors=True)
+    res = col.result()
+    res['failure_classes'] = ck.summary()
+    return res
+
+
+# ---------------------------------------------------------------------------------------------
+# the shape of the directory tree (see SHAPES / DIR_STYLES / OUT_MODES)
+# ---------------------------------------------------------------------------------------------
+
+# shape -> (label of what makes the tree special, directories that get a file in creation order ('' = the input
+# directory itself; a directory listed twice gets two files), directories that hold nothing).  A directory that is not
+# listed but lies on the way to a listed one holds nothing but sub directories.
+SHAPES = {
+    'only-subdirs-1-level': ('directory-holding-only-sub-directories', ['', 'a/b'], []),
+    'only-subdirs-2-levels': ('directory-holding-only-sub-directories', ['', 'a/b/c'], []),
+    'only-subdirs-3-levels': ('directory-holding-only-sub-directories', ['', 'a/b/c/d', 'a/b/c/d'], []),
+    'only-subdirs-below-a-directory-with-files': ('directory-holding-only-sub-directories', ['', 'a', 'a/b/c'], []),
+    'only-subdirs-two-branches': ('directory-holding-only-sub-directories', ['a/b/c', 'a/b/d/e', 'f', 'a/b/c'], []),
+    'only-subdirs-deep-file-created-first': ('directory-holding-only-sub-directories', ['a/b/c', ''], []),
+    'top-holds-only-subdirs': ('input-directory-holding-only-sub-directories', ['a', 'b'], []),
+    'top-and-next-level-hold-only-subdirs': ('input-directory-holding-only-sub-directories', ['a/b'], []),
+    'files-at-every-depth': ('files-at-several-depths', ['', 'a', 'a/b', 'a/b/c', 'a/b/c/d'], []),
+    'files-at-every-depth-deepest-first': ('files-at-several-depths', ['a/b/c', 'a/b', 'a', '', 'd'], []),
+    'wide': ('files-at-several-depths', ['a', 'b', 'c', 'd', ''], []),
+    'same-directory-names-in-siblings': ('same-directory-names-in-sibling-directories',
+                                         ['a/rec', 'b/rec', 'rec', 'rec/rec'], []),
+    'empty-directories': ('empty-directories', ['', 'a'], ['e', 'a/e', 'f/g/h']),
+    'empty-directories-next-to-deep-files': ('empty-directories', ['a/b', 'a/b/c'], ['a/e', 'a/b/e', 'e']),
+    'empty-directories-only': ('empty-directories', [], ['e', 'f/g']),
+}
+GAP_SHAPES = [k for k in SHAPES if 'only-sub' in SHAPES[k][0]]
+
+# how the directories are named: style -> name of the directory that the shapes call `c`
+DIR_STYLES = {
+    'plain': lambda c: c,
+    'dots': lambda c: {'a': 'a.2020-06-24', 'b': 'b.v1.2', 'c': 'c..d', 'rec': 'rec.1'}.get(c, c + '.dir'),
+    'named-like-files': lambda c: {'a': 'a.xml', 'b': 'b.odml', 'c': 'c.json', 'd': 'd.yaml', 'rec': 'rec.rdf'
+                                   }.get(c, c + '.xml'),
+    'blanks': lambda c: {'a': 'a dir', 'b': 'b  two blanks', 'c': 'c d e'}.get(c, 'my ' + c),
+    'non-ascii': lambda c: {'a': 'a_Mässung', 'b': 'b_日本', 'c': 'Δc'}.get(c, c + '_é'),
+}
+
+
+def _styled(path, style):
+    return '/'.join(DIR_STYLES[style](c) for c in path.split('/')) if path else ''
+
+
+# where the outputs go: mode -> explicit output directory?
+OUT_MODES = {'implicit': False, 'explicit-empty': True, 'explicit-holding-directories': True,
+             'explicit-inside-input': True}
+INSIDE = 'export'           # name of the output directory inside the input directory (no shape has such a directory)
+
+
+def shape_case(shape, style, mode, kinds, bad=None, name_style='plain'):
+    """The Case of a directory shape: the listed directories get files of `kinds` (round robin), `bad` (a kind that
+    has to be skipped) is put next to the deepest file."""
+    label, dirs, empty = SHAPES[shape]
+    layout = [(_styled(d, style), kinds[i % len(kinds)]) for i, d in enumerate(dirs)]
+    if bad and dirs:
+        deepest = max(dirs, key=lambda d: d.count('/') + bool(d))
+        layout.insert(len(layout) // 2, (_styled(deepest, style), bad))
+    empty = [_styled(e, style) for e in empty]
+    feature = label if style == 'plain' else '%s:directory-names-%s' % (label, style)
+    out_rel, out_dirs = 'out', []
+    if mode == 'explicit-inside-input':
+        out_rel = os.path.join('in', INSIDE)
+    elif mode == 'explicit-holding-directories':
+        # as after an earlier run over an older state of the tree: the first level of the input directories (all
+        # levels for every second one), and a directory that has no counterpart
+        tops = sorted(set(d.split('/')[0] for d, _ in layout if d))
+        out_dirs = [d for i, (d, _) in enumerate(layout) if d and i % 2] + tops[:2] + ['earlier']
+        out_dirs = sorted(set(out_dirs))
+    return Case(layout, empty_dirs=empty, out_rel=out_rel, out_dirs=out_dirs, shape=feature, name_style=name_style)
+
+
+def shape_plan(tier):
+    """(shape, directory name style, output mode, recursive) of a tier.  thorough: shapes x modes x recursive with
+    plain names, shapes x styles x recursive rotating through the modes; quick: every shape recursive with plain
+    names, modes rotating, the shapes with directories holding only sub directories in two modes, every style on two
+    shapes, one non-recursive run per label."""
+    plan = []
+    modes, styles = list(OUT_MODES), [s for s in DIR_STYLES if s != 'plain']
+    if tier != 'quick':
+        for i, shape in enumerate(SHAPES):
+            for mode in modes:
+                for recursive in (True, False):
+                    plan.append((shape, 'plain', mode, recursive))
+            for j, style in enumerate(styles):
+                plan.append((shape, style, modes[(i + j) % 4], True))
+                plan.append((shape, style, modes[(i + j + 2) % 4], True))
+                plan.append((shape, style, modes[(i + j + 1) % 4], False))
+        return plan
+    seen = set()
+    for i, shape in enumerate(SHAPES):
+        plan.append((shape, 'plain', modes[i % 4], True))
+        if shape in GAP_SHAPES:
+            plan.append((shape, 'plain', modes[(i + 2) % 4], True))
+        if SHAPES[shape][0] not in seen:
+            seen.add(SHAPES[shape][0])
+            plan.append((shape, 'plain', modes[(i + 1) % 4], False))
+    for j, style in enumerate(styles):
+        plan.append((GAP_SHAPES[j % len(GAP_SHAPES)], style, modes[j % 4], True))
+        plan.append((('files-at-every-depth', 'empty-directories', 'same-directory-names-in-siblings')[j % 3], style,
+                     modes[(j + 1) % 4], True))
+    return plan
+
+
+def run_shapes(tier, seed):
+    col = h.Collector(
+        'C17.shapes',
+        rule='one case = (shape of the directory tree, directory name style, output mode, recursive, tool[, target]); '
+             '%d shapes: directories that hold only sub directories (1 / 2 / 3 levels above the first file below a file '
+             'in the input directory, below a directory with files, on two branches, deep file created first, the input '
+             'directory itself alone / with the next level), files at every depth down to 4 (shallow / deep first, wide), '
+             'the same directory names in sibling directories and below themselves (file base names stay unique), empty '
+             'directories (next to files, below directories with files, chains of them, nothing else); %d directory name '
+             'styles: plain, dots, named like odML files (a.xml, b.odml, c.json, d.yaml), blanks, non-ASCII; %d output '
+             'modes: implicit, explicit and empty, explicit and already holding directories (some with the names of '
+             'input directories, as after an earlier run), explicit and inside the input directory; recursive on / off; '
+             'tools: odmlconvert and odmltordf over valid files of all 8 kinds (round robin over the positions) with and '
+             'without a file that has to be skipped next to the deepest file, format converter over valid source files '
+             'for every target but trix; thorough: shapes x modes x recursive with plain names + shapes x styles x 3 '
+             '(mode, recursive) combinations, rotating, for both command line tools and the targets v1_1, odml, turtle, '
+             'the other RDF targets on a third of the plan each; quick: every shape recursive (shapes with directories '
+             'holding only sub directories in 2 modes), one non-recursive run per kind of shape, every style on 2 '
+             'shapes, command line tools alternating, targets v1_1 / odml / one RDF target rotating; file names with '
+             'dots / blanks / non-ASCII characters on 3 shapes; '
+             'oracle: inputs byte-identical, new entries only below the output location (what the output location held '
+             'stays), every valid file at every depth in scope has its output with the content of its source, the run '
+             'completes, files to be skipped are skipped and reported (command line tools); format converter with the '
+             'output directory inside the input directory and recursion: only inputs-unchanged, writes-only-to-output and '
+             'the content of the first generation outputs (whether the walk meets its own outputs the statement does not '
+             'say); class key = (shape, style, mode, recursive, tool, target, with / without bad file)'
+             % (len(SHAPES), len(DIR_STYLES), len(OUT_MODES)),
+        exhaustive=False)
+    ck = Checker(col)
+    quick = tier == 'quick'
+    shutil.rmtree(WORK, ignore_errors=True)
+    os.makedirs(WORK)
+    rdf_targets = list(RDF_TARGETS)
+    try:
+        for n, (shape, style, mode, recursive) in enumerate(shape_plan(tier)):
+            explicit = OUT_MODES[mode]
+            # ---- command line tools
+            kinds = GOOD[n % len(GOOD):] + GOOD[:n % len(GOOD)]
+            for ti, tool in enumerate(CLI_TOOLS):
+                if quick and (n + ti) % 2 and shape not in GAP_SHAPES:
+                    continue
+                for with_bad in ((True, False) if not quick else (bool((n + ti) % 2),)):
+                    bad = (CORE_BAD + ENC_BAD)[(n + ti) % 7] if with_bad else None
+                    case = shape_case(shape, style, mode, kinds, bad)
+                    col.case(cls_key=('shape', shape, style, mode, recursive, tool, None, with_bad),
+                             sample='%s shape %s, %s names, output %s, -r=%s' % (tool, shape, style, mode, recursive))
+                    try:
+                        run_cli(ck, case, tool, recursive, explicit)
+                    finally:
+                        case.cleanup()
+            # ---- format converter
+            if quick:
+                targets = [('v1_1', 'odml')[n % 2], rdf_targets[n % len(rdf_targets)]]
+            else:
+                targets = ['v1_1', 'odml', 'turtle'] + [t for i, t in enumerate(rdf_targets)
+                                                        if t != 'turtle' and i % 3 == n % 3]
+            for target in targets:
+                sources = ['v10-xml', 'v10-odml'] if target == 'v1_1' else ['v11-xml', 'v11-odml', 'v11-xml']
+                nested = mode == 'explicit-inside-input' and recursive
+                case = shape_case(shape, style, mode, sources)
+                col.case(cls_key=('shape', shape, style, mode, recursive, 'formatconverter', target, False),
+                         sample='formatconverter %s shape %s, %s names, output %s, -r=%s'
+                                % (target, shape, style, mode, recursive))
+                try:
+                    run_fc(ck, case, target, recursive, explicit, bool(n % 2), expect_ok=not nested,
+                           ignore_below=os.path.join('in', INSIDE, INSIDE) if nested else None)
+                finally:
+                    case.cleanup()
+        # ---- file names with dots / blanks / non-ASCII characters in trees of these shapes
+        for i, name_style in enumerate(('dotted', 'spaced', 'non-ascii')):
+            for j, shape in enumerate(('only-subdirs-2-levels', 'files-at-every-depth', 'empty-directories')):
+                mode = list(OUT_MODES)[(i + j) % 4]
+                for tool in CLI_TOOLS + ('formatconverter',):
+                    if quick and tool == CLI_TOOLS[(i + j) % 2]:
+                        continue
+                    target = None if tool in CLI_TOOLS else ('odml', 'turtle', 'nt')[(i + j) % 3]
+                    kinds = GOOD if tool in CLI_TOOLS else ['v11-xml', 'v11-odml']
+                    case = shape_case(shape, DIR_STYLES and ('plain', 'blanks', 'non-ascii')[i], mode, kinds,
+                                      name_style=name_style)
+                    col.case(cls_key=('shape-names', shape, name_style, mode, tool, target),
+                             sample='%s shape %s, %s file names, output %s' % (tool, shape, name_style, mode))
+                    try:
+                        if tool in CLI_TOOLS:
+                            run_cli(ck, case, tool, True, OUT_MODES[mode])
+                        else:
+                            nested = mode == 'explicit-inside-input'
+                            run_fc(ck, case, target, True, OUT_MODES[mode], False, expect_ok=not nested,
+                                   ignore_below=os.path.join('in', INSIDE, INSIDE) if nested else None)
+                    finally:
+                        case.cleanup()
     finally:
         shutil.rmtree(WORK, ignore_errors=True)
     res = col.result()
